@@ -63,7 +63,7 @@ type Cfg struct {
 	Providers    []string `json:"providers"`
 	Preserve     []string `json:"preserve"`
 	DefaultPaths bool     `json:"default_paths"` // Config.Paths' OK / NotOK targets left at authboss.New()'s defaults ("/")
-	OneTime      bool     `json:"onetime"` // the user type implements totp2fa.UserOneTime (TOTP replay protection)
+	OneTime      bool     `json:"onetime"`       // the user type implements totp2fa.UserOneTime (TOTP replay protection)
 }
 
 func (c Cfg) has(m string) bool {
